@@ -1737,6 +1737,29 @@ def check_first_call_only(ctx, res, rule, construct, loc_of):
                       witness={"history": "call twice (fit(y1); fit(y2) or set_params(...); fit(y))"})
     if not bad:
         ctx.ok(rule, construct + ":re-established", "no fitted attribute is guarded by its own previous value (%d stores)" % len(res.stores()), None)
+    # a container attribute that this call only *adds to* (append / insert / extend / update / add / item store) without
+    # having (re)created it first still holds what the previous call put there
+    grown = {}
+    for e in res.events:
+        base = None
+        if e.kind == "call" and e.target is not None and e.target.kind == "attr" and e.name in MUTATORS:
+            base = e.recv
+        elif e.kind == "setitem":
+            base = e.base
+        if isinstance(base, tuple) and len(base) >= 2 and base[0] in ("attr0", "attr@") and base[1] not in grown:
+            if not any(s.attr == base[1] and s.id < e.id for s in res.stores()):
+                grown[base[1]] = e
+    for attr, e in grown.items():
+        ctx.violation(rule, "%s:re-created:%s" % (construct, attr),
+                      "self.%s is only added to (`%s`), never re-created in this call: what an earlier call collected is still in it, "
+                      "so a second call works on the union of both" % (attr, e.name or "[...] ="), loc_of(e),
+                      witness={"history": "fit(y1); fit(y2): the collection holds the entries of both fits"})
+    if not grown:
+        ctx.ok(rule, construct + ":re-created", "no fitted collection is grown without being re-created first", None)
+
+
+MUTATORS = ("append", "insert", "extend", "update", "add", "setdefault", "appendleft")
+
 
 
 _BORROWED = {}
@@ -1860,7 +1883,7 @@ def element_view(res, x):
             if isinstance(sub, tuple) and len(sub) == 3 and sub[0] == "elem" and isinstance(sub[1], tuple) and sub[1][:2] == ("pure", "range"):
                 rargs = sub[1][2]
                 if rargs in ((n,), (("const", 0), n)):
-                    co = _affine(res, idx, sub, n)
+                    co = _affine(None, idx, sub, n)
                     if co == (1, 0, 0):
                         return S, False, sub[2]
                     if co == (-1, 1, -1):
